@@ -209,6 +209,31 @@ func Probes(n int) []Probe {
 	return ps
 }
 
+// Tails are programs whose LAST evaluated thing is a built-in that hands
+// control to the platform (sleep, read) or another call: a stop that arrives
+// inside it has nothing after it that could notice the flag.
+var Tails = []struct {
+	Program string
+	Inputs  []string
+	Events  []core.Event
+}{
+	{Program: "print \"a\"\nsleep 1\n"},
+	{Program: "print \"a\"\ns := read\nprint s\nt := read\n", Inputs: []string{"x"}},
+	{Program: "print \"q\"\nx := read\n", Inputs: []string{"one"}},
+	{Program: "f\nfunc f\n    print \"in f\"\n    sleep 0.5\nend\n"},
+	{Program: "for i := range 3\n    print i\n    sleep 0.1\nend\n"},
+	{Program: "n := 0\nwhile n < 2\n    n = n + 1\n    l := read\n    l = l + \"\"\nend\n", Inputs: []string{"a", "b"}},
+	{Program: "on key k:string\n    print k\n    sleep 0.2\nend\n", Events: []core.Event{{Name: "key", Str: []string{"a"}}, {Name: "key", Str: []string{"b"}}}},
+	{Program: "on down x:num y:num\n    print x y\n    l := read\n    l = l + \"\"\nend\n", Inputs: []string{"in"}, Events: []core.Event{{Name: "down", Num: []string{"1", "2"}}}},
+	{Program: "test 1 2\nprint \"after failing test\"\nsleep 1\n"},
+	{Program: "test 1 2\nfor i := range 3\n    x := i\n    x = x + 1\nend\n"},
+	{Program: "if true\n    print \"t\"\n    sleep 1\nend\n"},
+	{Program: "g (h)\nfunc h:num\n    sleep 0.1\n    return 1\nend\nfunc g n:num\n    m := n\n    m = m + 1\n    sleep 0.1\nend\n"},
+	{Program: "cls\n"},
+	{Program: "print \"only\"\n"},
+	{Program: "x := 1\n"},
+}
+
 // Endless builds programs that never end by themselves.
 func Endless(r *prng.R) (string, []core.Event) {
 	switch r.Intn(11) {
@@ -257,7 +282,22 @@ func AnyWrap(r *prng.R) string {
 		fmt.Fprintf(&b, "print (%s%s == %s%s)\n", v, idx, v, idx)
 		fmt.Fprintf(&b, "for e := range %s\n    print (typeof e) e\nend\n", v)
 	}
-	switch r.Intn(6) {
+	switch r.Intn(7) {
+	case 6:
+		// any values holding composites of the same kind but different element
+		// types, of equal length and with shared keys, compared pairwise
+		vals := []string{"[1]", "[\"one\"]", "[true]", "[[1]]", "[n]", "[strs[0]]", "{k:1}", "{k:\"s\"}", "{k:true}", "{k:[1]}", "nums", "strs", "m", "[1 2]", "[\"a\" \"b\"]", "1", "\"1\"", "true"}
+		perm := r.Perm(len(vals))
+		k := r.Range(3, 6)
+		for i := 0; i < k; i++ {
+			fmt.Fprintf(&b, "a%d:any\na%d = %s\n", i, i, vals[perm[i]])
+		}
+		b.WriteString("anys := [")
+		for i := 0; i < k; i++ {
+			fmt.Fprintf(&b, "a%d ", i)
+		}
+		b.WriteString("]\nfor x := range anys\n    for y := range anys\n        print (typeof x) (typeof y) (x == y) (x != y)\n    end\nend\n")
+		fmt.Fprintf(&b, "print (a0 == a1) (a1 != a2) ([a0] == [a1]) ({k:a0} == {k:a2})\n")
 	case 0:
 		fmt.Fprintf(&b, "b:[]any\nb = %s\n", arrSrc[r.Intn(len(arrSrc))])
 		uses("b", "[-1]")
